@@ -116,6 +116,40 @@ class Env:
         return rc, se
 
 
+DIRECTED_UNIVERSE = {
+    "roots": [
+        {
+            "name": "dirns",
+            "types": [
+                {"ns": ["dirns", "sub"], "name": "Leaf", "major": 1, "minor": 0, "port_id": None, "kind": "struct", "deprecated": False, "doc": ["a leaf  ", "", "", "type"],
+                 "body": {"union": False, "sealed": True, "extent_extra": 0, "attrs": [{"k": "field", "type": {"t": "uint", "bits": 8, "cast": "saturated"}, "name": "x", "doc": None}]}},
+                {"ns": ["dirns"], "name": "Top", "major": 1, "minor": 0, "port_id": None, "kind": "struct", "deprecated": False, "doc": [],
+                 "body": {"union": False, "sealed": True, "extent_extra": 0, "attrs": [
+                     {"k": "field", "type": {"t": "ref", "full": "dirns.sub.Leaf", "major": 1, "minor": 0}, "name": "leaf", "doc": None},
+                     {"k": "field", "type": {"t": "varr", "elem": {"t": "float", "bits": 32, "cast": "saturated"}, "cap": 3, "incl": True}, "name": "v", "doc": None}]}},
+            ],
+        }
+    ]
+}
+# each step changes ONE thing relative to the step before it (content unchanged + other mode, read-only tree, other content, ...)
+DIRECTED_HISTORY = [
+    {},
+    {"mode": 0o444},
+    {"mode": 0o664},
+    {"mode": 0o664, "pp": "trim+limit1"},
+    {"chmod_all": 0o444},
+    {"mode": 0o600, "pp": "trim+limit1"},
+    {"mode": 0o600, "pp": "trim+limit1", "omit": True},
+    {"mode": 0o600, "no_overwrite": True},
+    {"mode": 0o400, "support": "only"},
+    {"mode": 0o644, "support": "never"},
+    {"mode": 0o640, "support": "always"},
+    {"chmod_all": 0o400},
+    {"mode": 0o444, "support": "always"},
+    {"mode": 0o444, "support": "always", "no_overwrite": True},
+]
+
+
 def make_machine(ctx: core.Ctx):
     class History(RuleBasedStateMachine):
         def __init__(self):
@@ -137,8 +171,25 @@ def make_machine(ctx: core.Ctx):
 
         @rule(o=opts_strategy)
         def run_tool(self, o):
+            self.do_run(o)
+
+        @precondition(lambda self: getattr(self, "last_opts", None) is not None)
+        @rule(dim=st.sampled_from(["mode", "mode", "mode", "no_overwrite", "support", "pp", "omit"]), o=opts_strategy)
+        def rerun_with_one_change(self, dim, o):
+            """The previous invocation again with ONE option changed (same content + other --file-mode, same mode + other content ...)."""
+            new = dict(self.last_opts)
+            new[dim] = o[dim]
+            if dim == "mode" and new["mode"] == self.last_opts["mode"]:
+                new["mode"] = MODES[(MODES.index(new["mode"]) + 1) % len(MODES)]
+            if dim != "no_overwrite":
+                new["no_overwrite"] = False  # the varied option is to take effect
+            ctx.event("rule.rerun-with-one-change." + dim)
+            self.do_run(new)
+
+        def do_run(self, o):
             env = self.env
             assert env is not None
+            self.last_opts = dict(o)
             self.trace.append({"op": "run", "opts": o})
             model = env.model_files(o)
             before = snap(env.out)
@@ -247,6 +298,26 @@ def run(ctx: core.Ctx):
     ]
     n = 20 if ctx.quick else 120
     machine = make_machine(ctx)
+    # directed histories first (one per target): every option dimension is varied once on its own over a populated directory
+    for lang in ("c", "py", "cpp"):
+        m = machine()
+        m.env = Env(DIRECTED_UNIVERSE, lang)
+        m.trace.append({"op": "init", "lang": lang, "directed": True})
+        base = {"mode": 0o644, "no_overwrite": False, "omit": False, "support": "as-needed", "pp": ""}
+        try:
+            for step in DIRECTED_HISTORY:
+                if "chmod_all" in step:
+                    files = sorted(p for p in m.env.out.rglob("*") if p.is_file())
+                    for f in files:
+                        os.chmod(f, step["chmod_all"])
+                    m.trace.append({"op": "chmod", "files": [str(f.relative_to(m.env.out)) for f in files], "mode": step["chmod_all"]})
+                else:
+                    m.do_run(dict(base, **step))
+            ctx.event("directed_histories_completed")
+        except AssertionError:
+            pass
+        finally:
+            m.teardown()
     try:
         run_state_machine_as_test(hypothesis.seed(ctx.seed)(machine), settings=core.hsettings(n, shrink=not os.environ.get("VF_NO_SHRINK"), stateful_step_count=8 if ctx.quick else 25))
     except AssertionError:
